@@ -195,12 +195,18 @@ func (ex *Explorer) siteBudgetN(key string, n int) bool {
 	return ex.siteCands[key] <= n
 }
 
+func (ex *Explorer) siteCount(key string) int {
+	ex.mu.Lock()
+	defer ex.mu.Unlock()
+	return ex.siteCands[key]
+}
+
 func (ex *Explorer) siteTimeLeft(key string) bool {
 	ex.mu.Lock()
 	defer ex.mu.Unlock()
-	limit := 4 * time.Minute
+	limit := 10 * time.Minute
 	if ex.tier > 0 {
-		limit = 12 * time.Minute
+		limit = 30 * time.Minute
 	}
 	return ex.siteTime[key] < limit
 }
@@ -761,10 +767,17 @@ func (p *Path) assertObligKnown(cond *Term, label string, known *Term, finding s
 		ckey := bkey + "#" + choiceKey(p.choices)
 		// two searches per distinct vector of harness choices, at most 24 per assertion, and at most
 		// ~4 minutes (12 in the thorough tier) of search time per assertion
-		if p.ex.siteBudgetN(ckey, 2) && p.ex.siteTimeLeft(bkey) && p.ex.siteBudgetN(bkey, 24) {
+		// (searches that end without a candidate do not use up the vector's share: up to 12 of them per assertion)
+		if p.ex.siteCount(ckey) < 2 && p.ex.siteCount(bkey) < 24 && p.ex.siteCount(bkey+"#failed") < 12 && p.ex.siteTimeLeft(bkey) {
 			t0 := time.Now()
 			p.refineAndRecord(ob, neg)
 			p.ex.siteTimeAdd(bkey, time.Since(t0))
+			if ob.Status == "violated-candidate" {
+				p.ex.siteBudgetN(ckey, 1)
+				p.ex.siteBudgetN(bkey, 1)
+			} else {
+				p.ex.siteBudgetN(bkey+"#failed", 1)
+			}
 		} else {
 			ob.Status = "violated-unrefined"
 			ob.Choices = map[string]int{}
